@@ -153,10 +153,33 @@ def generate(rng, tier, profile='default'):
   series, kinds, lens = [], [], []
   for n in lengths:
     base = _base(rng, n)
+    first = len(series)
     for _ in range(rng.randrange(3, 6)):
       kind = rng.choice(KINDS)
       series.append(_make_series(rng, kind, base, n))
       kinds.append(kind)
+      lens.append(n)
+    # look-alikes of an earlier series: same length, same mean / sum / value
+    # multiset / end points but another order -- what a cheap "nothing
+    # changed" test would confuse
+    for _ in range(rng.choice((0, 1, 1, 2))):
+      src = list(series[rng.randrange(first, len(series))])
+      how = rng.choice(('perm', 'rev', 'same_ends', 'same_mean'))
+      if how == 'perm':
+        rng.shuffle(src)
+      elif how == 'rev':
+        src.reverse()
+      elif how == 'same_ends' and n >= 4:
+        mid = src[1:-1]
+        rng.shuffle(mid)
+        src = src[:1] + mid + src[-1:]
+      elif n >= 4 and all(not isinstance(v, str) for v in src):
+        i, j = rng.sample(range(n), 2)
+        d = _round(rng.uniform(0.5, 3))
+        src[i] = _round(src[i] + d)
+        src[j] = _round(src[j] - d)
+      series.append(src)
+      kinds.append(how)
       lens.append(n)
   idx_by_len = {}
   for i, n in enumerate(lens):
@@ -167,7 +190,7 @@ def generate(rng, tier, profile='default'):
   bias_verdict = rng.choice((0.1, 0.3, 0.5))
   p_fault = rng.choice((0.0, 0.0, 0.1, 0.2))
   p_alias = rng.choice((0.0, 0.0, 0.0, 0.15))
-  p_snap = rng.choice((0.0, 0.05, 0.15))
+  p_snap = rng.choice((0.03, 0.08, 0.15))
   objs = [0]
   cur_len = {0: lengths[0]}
   ops = []
@@ -185,10 +208,12 @@ def generate(rng, tier, profile='default'):
                   'v': _round(rng.uniform(-100, 100))})
     elif r < p_fault + p_alias + p_snap and len(objs) < 4:
       new = max(objs) + 1
-      if rng.random() < 0.3:
-        # an unrelated sibling object built mid-history (shares only the class)
+      if rng.random() < 0.4:
+        # an unrelated sibling object built mid-history (shares only the
+        # class), half of the time with another parameter object
         sidx = rng.randrange(len(series))
-        ops.append({'op': 'new', 'id': new, 's': sidx})
+        ops.append({'op': 'new', 'id': new, 's': sidx,
+                    'p': rng.randrange(2)})
         cur_len[new] = lens[sidx]
       else:
         ops.append({'op': 'snapshot', 'o': o, 'id': new})
@@ -216,8 +241,10 @@ def generate(rng, tier, profile='default'):
   # always finish by reading the joint verdict and one more quantity
   ops.append({'op': 'read', 'o': 0, 'q': 'tests_ok'})
   ops.append({'op': 'read', 'o': 0, 'q': rng.choice(READ_QS[2:10])})
-  return {'machine': NAME, 'par': par, 'series': series, 'kinds': kinds,
-          'init_y': init_y, 'ops': ops}
+  par2 = _gen_par(rng)
+  par2['n_test'] = rng.choice((par['n_test'], par['n_test'], 1, 2, 5))
+  return {'machine': NAME, 'par': par, 'par2': par2, 'series': series,
+          'kinds': kinds, 'init_y': init_y, 'ops': ops}
 
 
 # --------------------------------------------------------------------------
@@ -267,8 +294,9 @@ def _do_read(obj, q, args):
 class _Tracked:
   """What the harness knows about one object under test."""
 
-  def __init__(self, obj, y, x):
+  def __init__(self, obj, y, x, pk=None):
     self.obj = obj
+    self.pk = pk          # parameter kwargs of this object
     self.y = y            # tracked current series (numpy arrays or None)
     self.x = x
     self.caller_y = None  # the very array object the caller passed in
@@ -286,11 +314,12 @@ def execute(desc):
       'tbrmmdesignparameters', 'tbrmmdiagnostics')
   np.seterr(all='ignore')
   par_kwargs = dict(desc['par'])
+  par2_kwargs = dict(desc.get('par2') or desc['par'])
   series = [_decode_series(s) for s in desc['series']]
   kinds = desc.get('kinds') or ['?'] * len(series)
 
-  def new_par():
-    return tbrmmdesignparameters.TBRMMDesignParameters(**par_kwargs)
+  def new_par(pk=None):
+    return tbrmmdesignparameters.TBRMMDesignParameters(**(pk or par_kwargs))
 
   # The reference lives in a private module set (its own simulated process),
   # re-loaded whenever the series it is asked about change, so that neither
@@ -299,10 +328,12 @@ def execute(desc):
   # reference could pick up.
   ref_sets = {}     # series fingerprint -> module set (a small LRU)
 
-  def fresh(y, x):
+  def fresh(y, x, pk=None):
+    pk = pk or par_kwargs
     key = (np.asarray(y).tobytes(), str(np.asarray(y).dtype),
            None if x is None else np.asarray(x).tobytes(),
-           None if x is None else str(np.asarray(x).dtype))
+           None if x is None else str(np.asarray(x).dtype),
+           tuple(sorted(pk.items())))
     mods = ref_sets.pop(key, None)
     if mods is None:
       mods = core.reference_modules('tbrmmdesignparameters',
@@ -312,7 +343,7 @@ def execute(desc):
     ref_sets[key] = mods
     rpar, rdiag = mods
     f = rdiag.TBRMMDiagnostics(
-        np.array(y), rpar.TBRMMDesignParameters(**par_kwargs))
+        np.array(y), rpar.TBRMMDesignParameters(**pk))
     if x is not None:
       f.x = np.array(x)
     return f
@@ -333,7 +364,7 @@ def execute(desc):
 
   y0 = np.array(series[desc['init_y']])
   objs = {0: _Tracked(tbrmmdiagnostics.TBRMMDiagnostics(y0, new_par()),
-                      y0.copy(), None)}
+                      y0.copy(), None, par_kwargs)}
   events = []
   absig = []
   viol = None
@@ -353,9 +384,13 @@ def execute(desc):
     stats['ops'] += 1
     if kind == 'new':
       yn = np.array(series[op['s']])
+      pk = par2_kwargs if op.get('p') else par_kwargs
       objs[op['id']] = _Tracked(
-          tbrmmdiagnostics.TBRMMDiagnostics(yn, new_par()), yn.copy(), None)
+          tbrmmdiagnostics.TBRMMDiagnostics(yn, new_par(pk)), yn.copy(), None,
+          pk)
       fault('sibling_object_built')
+      if op.get('p'):
+        probe('sibling_with_other_parameters')
       events.append([step, kind, op['id'], op['s']])
       absig.append((kind, kinds[op['s']]))
       continue
@@ -377,7 +412,7 @@ def execute(desc):
       except Exception as e:  # pylint: disable=broad-except
         raised = e
       # the model: what a fresh object with the same prior series does
-      f = fresh(t.y, t.x)
+      f = fresh(t.y, t.x, t.pk)
       try:
         if which == 'x':
           f.x = _container(np, vals, op.get('as', 'list'))
@@ -452,7 +487,7 @@ def execute(desc):
         raised = None
       except Exception as e:  # pylint: disable=broad-except
         raised = e
-      f = fresh(t.y, t.x)
+      f = fresh(t.y, t.x, t.pk)
       try:
         if which == 'x':
           f.x = _bad_value(np, op['how'], n)
@@ -491,7 +526,7 @@ def execute(desc):
     elif kind == 'snapshot':
       new = copy.deepcopy(obj)
       nt = _Tracked(new, None if t.y is None else t.y.copy(),
-                    None if t.x is None else t.x.copy())
+                    None if t.x is None else t.x.copy(), t.pk)
       nt.read_since_assign = set(t.read_since_assign)
       nt.stale_opportunity = t.stale_opportunity
       nt.cached_before_assign = t.cached_before_assign
@@ -517,7 +552,7 @@ def execute(desc):
             not same_series(rx, cx)):
           probe('object_aliases_caller_array')
           cx = np.array(rx)
-      f = fresh(cy, cx)
+      f = fresh(cy, cx, t.pk)
       f_ok, f_val = _do_read(f, q, args)
       exp = core.canon(f_val)
       stats['compared'] += 1
@@ -603,6 +638,10 @@ def simplifications(desc):
   if desc['par']['n_test'] > 1:
     d = copy.deepcopy(desc)
     d['par']['n_test'] = 1
+    yield d
+  if desc.get('par2') and desc['par2'] != desc['par']:
+    d = copy.deepcopy(desc)
+    d['par2'] = dict(d['par'])
     yield d
   # plain containers
   for i, op in enumerate(desc['ops']):
